@@ -164,6 +164,63 @@ Theorem dugue_objective_is_directed_modularity (g : wgraph) (res : Q) (labels : 
 Proof. exact (kind_objective_dugue_spec g res labels). Qed.
 Print Assumptions dugue_objective_is_directed_modularity.
 
+(** * Leiden.fit
+    optimize_refine_core draws its targets with libc rand(): the refined partition of every aggregation
+    level is an oracle argument [refine]. For EVERY oracle meeting [refine_contract] (its answer has one
+    label per node, refined clusters are subsets of the coarse clusters, nodes with the same refined
+    label are connected — what the kernel guarantees, since a node only joins the refined cluster of a
+    neighbour inside its own coarse cluster), the same three facts hold for Leiden: the returned
+    (coarse) partition gains exactly the sum of the logged increases over singletons, every increase is
+    >= 0, clusters lie inside connected components. *)
+Theorem leiden_increase_total (refine : nat -> wgraph -> list nat -> list nat)
+        (fuel kfuel : nat) (kind : modkind) (res tol_opt tol_agg : Q) (n_agg : Z)
+        (m : wmat) (fb : bool) (index : option (list nat)) (p : prep) (r : fit_result) :
+  refine_contract refine ->
+  pre_processing kind m fb index = MOk p ->
+  leiden_loop fuel kfuel res tol_opt tol_agg n_agg refine (p_adj p) (p_out p) (p_in p)
+              (seq 0 (length (p_adj p))) (seq 0 (length (p_adj p))) 0 [] marg0 = MOk r ->
+  let obj := objective (p_adj p) (p_out p) (p_in p) res in
+  let g1 := working_graph kind m fb index in
+  obj (r_membership r) - obj (seq 0 (length (p_adj p))) == log_total (r_log r) /\
+  0 <= log_total (r_log r) /\
+  log_nonneg (r_log r) /\
+  length (r_membership r) = length g1 /\
+  (forall u v, (u < length g1)%nat -> (v < length g1)%nat ->
+     lab (r_membership r) u = lab (r_membership r) v -> connected g1 u v).
+Proof. exact (leiden_fit_core refine fuel kfuel kind res tol_opt tol_agg n_agg m fb index p r). Qed.
+Print Assumptions leiden_increase_total.
+
+(** * The statements on the returned labels_ (no shuffling) and the documented objective
+    [louvain_fit] / [leiden_fit] = the whole of fit (pre-processing, loop, post-processing with optional
+    cluster sorting). On any input on which it returns, with A the working adjacency:
+      objective_kind(labels_) - objective_kind(singletons) = sum of the logged increases >= 0,
+    every logged increase is >= 0, and nodes with equal label are connected in A. *)
+Theorem louvain_labels_objective (fuel kfuel : nat) (kind : modkind) (res tol_opt tol_agg : Q) (n_agg : Z)
+        (sort_clusters : bool) (m : wmat) (fb : bool) (labels : list nat) (log : list logline) (mg : marg) :
+  louvain_fit fuel kfuel kind res tol_opt tol_agg n_agg sort_clusters m fb None = MOk (labels, log, mg) ->
+  let g1 := working_graph kind m fb None in
+  wf_wgraph g1 ->
+  kind_objective kind g1 res labels - kind_objective kind g1 res (seq 0 (length g1)) == log_total log /\
+  0 <= log_total log /\ log_nonneg log /\
+  length labels = length g1 /\
+  (forall u v, (u < length g1)%nat -> (v < length g1)%nat -> lab labels u = lab labels v -> connected g1 u v).
+Proof. exact (louvain_fit_labels fuel kfuel kind res tol_opt tol_agg n_agg sort_clusters m fb labels log mg). Qed.
+Print Assumptions louvain_labels_objective.
+
+Theorem leiden_labels_objective (refine : nat -> wgraph -> list nat -> list nat)
+        (fuel kfuel : nat) (kind : modkind) (res tol_opt tol_agg : Q) (n_agg : Z)
+        (sort_clusters : bool) (m : wmat) (fb : bool) (labels : list nat) (log : list logline) (mg : marg) :
+  refine_contract refine ->
+  leiden_fit fuel kfuel kind res tol_opt tol_agg n_agg sort_clusters refine m fb None = MOk (labels, log, mg) ->
+  let g1 := working_graph kind m fb None in
+  wf_wgraph g1 ->
+  kind_objective kind g1 res labels - kind_objective kind g1 res (seq 0 (length g1)) == log_total log /\
+  0 <= log_total log /\ log_nonneg log /\
+  length labels = length g1 /\
+  (forall u v, (u < length g1)%nat -> (v < length g1)%nat -> lab labels u = lab labels v -> connected g1 u v).
+Proof. exact (leiden_fit_labels refine fuel kfuel kind res tol_opt tol_agg n_agg sort_clusters m fb labels log mg). Qed.
+Print Assumptions leiden_labels_objective.
+
 (** * Non-vacuity *)
 Definition ex_house : wmat :=
   {| w_ncol := 5;
@@ -188,4 +245,20 @@ Example c06_louvain_nonvacuous :
 Proof.
   eexists. eexists. split; [vm_compute; reflexivity|]. split; [vm_compute; reflexivity|].
   split; vm_compute; reflexivity.
+Qed.
+
+(** The contract is satisfiable (the oracle that refines nothing: every node its own refined cluster),
+    and Leiden with it returns on the house graph. *)
+Example c06_leiden_nonvacuous :
+  refine_contract (fun _ g _ => seq 0 (length g)) /\
+  exists p r, pre_processing Dugue ex_house false None = MOk p /\
+    leiden_loop 20 100 1 (1 # 1000) (1 # 1000) (-1) (fun _ g _ => seq 0 (length g))
+                (p_adj p) (p_out p) (p_in p) (seq 0 (length (p_adj p))) (seq 0 (length (p_adj p))) 0 [] marg0 = MOk r /\
+    r_membership r = [0; 0; 1; 1; 0]%nat.
+Proof.
+  split.
+  - intros count g labels Hwf Hlen. split; [apply seq_length|]. split.
+    + intros x y Hx Hy E. rewrite !lab_seq in E by assumption. subst y. reflexivity.
+    + apply cc_inv_singletons.
+  - eexists. eexists. split; [vm_compute; reflexivity|]. split; vm_compute; reflexivity.
 Qed.
